@@ -1,6 +1,259 @@
 package main
 
-// placeholder: filled in by the mutant matrix (see mutants_impl.go)
-func runMutantMatrix(pid, repo, verif string) any { return nil }
-func runMutantsCmd(pos []string, repo, verif string) int { return 0 }
+import (
+	"encoding/json"
+	"fmt"
+	"os"
+	"os/exec"
+	"path/filepath"
+	"sort"
+	"strings"
+	"sync"
+)
+
+// A Mutant is one small source change that breaks a property while still
+// compiling; it is applied to a scratch copy of the *current* /repo. The matrix
+// validates the checker (the owning rule must report it, every other rule must
+// stay silent); it never changes the verdict of a property check.
+type Mutant struct {
+	ID    string   `json:"id"`
+	File  string   `json:"file"`
+	Old   string   `json:"old"`
+	New   string   `json:"new"`
+	Rules []string `json:"rules"` // rules expected to report (at least one obligation of each)
+	Also  []string `json:"also,omitempty"`  // other rules that may legitimately report too
+	Props []string `json:"props"` // properties the mutation breaks
+	Why   string   `json:"why"`
+}
+
+type MutantResult struct {
+	ID       string   `json:"id"`
+	Status   string   `json:"status"` // caught | MISSED | not-applicable | does-not-compile | NOISY
+	Expected []string `json:"expected_rules"`
+	Reported []string `json:"reported"` // rule|key of non-ok obligations
+	Note     string   `json:"note,omitempty"`
+}
+
+func loadMutants(verif string) ([]Mutant, error) {
+	var out []Mutant
+	files, _ := filepath.Glob(filepath.Join(verif, "mutants", "*.json"))
+	sort.Strings(files)
+	for _, f := range files {
+		b, err := os.ReadFile(f)
+		if err != nil {
+			return nil, err
+		}
+		var ms []Mutant
+		if err := json.Unmarshal(b, &ms); err != nil {
+			return nil, fmt.Errorf("%s: %w", f, err)
+		}
+		out = append(out, ms...)
+	}
+	return out, nil
+}
+
+func copyRepo(src, dst string) error {
+	// plain copy without VCS metadata; small tree (a few MB)
+	cmd := exec.Command("sh", "-c", fmt.Sprintf("mkdir -p %q && cd %q && tar --exclude=.git -cf - . | tar -xf - -C %q", dst, src, dst))
+	out, err := cmd.CombinedOutput()
+	if err != nil {
+		return fmt.Errorf("%v: %s", err, out)
+	}
+	return nil
+}
+
+func runOneMutant(m Mutant, repo string, baseline map[string]bool) MutantResult {
+	res := MutantResult{ID: m.ID, Expected: m.Rules}
+	src := filepath.Join(repo, m.File)
+	b, err := os.ReadFile(src)
+	if err != nil {
+		res.Status = "not-applicable"
+		res.Note = "file not found"
+		return res
+	}
+	if strings.Count(string(b), m.Old) != 1 {
+		res.Status = "not-applicable"
+		res.Note = fmt.Sprintf("anchor text occurs %d times in %s on this tree", strings.Count(string(b), m.Old), m.File)
+		return res
+	}
+	tmp, err := os.MkdirTemp("", "sdbcheck-mut-")
+	if err != nil {
+		res.Status = "error"
+		res.Note = err.Error()
+		return res
+	}
+	defer os.RemoveAll(tmp)
+	if err := copyRepo(repo, tmp); err != nil {
+		res.Status = "error"
+		res.Note = err.Error()
+		return res
+	}
+	nb := strings.Replace(string(b), m.Old, m.New, 1)
+	if err := os.WriteFile(filepath.Join(tmp, m.File), []byte(nb), 0o644); err != nil {
+		res.Status = "error"
+		res.Note = err.Error()
+		return res
+	}
+	exe, _ := os.Executable()
+	cmd := exec.Command(exe, "dump", "all", "--bad", "--json", "--repo", tmp)
+	out, err := cmd.Output()
+	if err != nil && len(out) == 0 {
+		res.Status = "error"
+		res.Note = fmt.Sprintf("%v", err)
+		return res
+	}
+	if strings.Contains(string(out), "CANNOT-ANALYSE") {
+		res.Status = "does-not-compile"
+		res.Note = firstLine(string(out))
+		return res
+	}
+	var obs []Ob
+	if err := json.Unmarshal(out, &obs); err != nil {
+		res.Status = "error"
+		res.Note = "bad json from dump: " + firstLine(string(out))
+		return res
+	}
+	byRule := map[string]bool{}
+	for _, ob := range obs {
+		if baseline[ob.Key] {
+			continue
+		}
+		byRule[ob.Rule] = true
+		res.Reported = append(res.Reported, ob.Key)
+	}
+	sort.Strings(res.Reported)
+	caught := len(m.Rules) > 0
+	for _, r := range m.Rules {
+		if !byRule[r] {
+			caught = false
+		}
+	}
+	noisy := []string{}
+	for r := range byRule {
+		exp := false
+		for _, e := range append(append([]string{}, m.Rules...), m.Also...) {
+			if e == r {
+				exp = true
+			}
+		}
+		if !exp {
+			noisy = append(noisy, r)
+		}
+	}
+	sort.Strings(noisy)
+	switch {
+	case !caught:
+		res.Status = "MISSED"
+	case len(noisy) > 0:
+		res.Status = "caught+extra"
+		res.Note = "also reported by: " + strings.Join(noisy, ",")
+	default:
+		res.Status = "caught"
+	}
+	return res
+}
+
+func firstLine(s string) string {
+	if i := strings.IndexByte(s, '\n'); i >= 0 {
+		return s[:i]
+	}
+	return s
+}
+
+func baselineBad(repo string) map[string]bool {
+	exe, _ := os.Executable()
+	out, _ := exec.Command(exe, "dump", "all", "--bad", "--json", "--repo", repo).Output()
+	var obs []Ob
+	json.Unmarshal(out, &obs)
+	m := map[string]bool{}
+	for _, ob := range obs {
+		m[ob.Key] = true
+	}
+	return m
+}
+
+func runMutants(ms []Mutant, repo string, par int) []MutantResult {
+	base := baselineBad(repo)
+	res := make([]MutantResult, len(ms))
+	sem := make(chan struct{}, par)
+	var wg sync.WaitGroup
+	for i := range ms {
+		wg.Add(1)
+		sem <- struct{}{}
+		go func(i int) {
+			defer wg.Done()
+			defer func() { <-sem }()
+			res[i] = runOneMutant(ms[i], repo, base)
+		}(i)
+	}
+	wg.Wait()
+	return res
+}
+
+// runMutantMatrix runs the mutants of one property (thorough tier).
+func runMutantMatrix(pid, repo, verif string) any {
+	ms, err := loadMutants(verif)
+	if err != nil {
+		return map[string]any{"error": err.Error()}
+	}
+	var sel []Mutant
+	for _, m := range ms {
+		if hasProp(m.Props, pid) {
+			sel = append(sel, m)
+		}
+	}
+	res := runMutants(sel, repo, 6)
+	caught, missed := 0, 0
+	for _, r := range res {
+		if strings.HasPrefix(r.Status, "caught") {
+			caught++
+		} else if r.Status == "MISSED" {
+			missed++
+		}
+	}
+	return map[string]any{"mutants": len(sel), "caught": caught, "missed": missed, "results": res,
+		"note": "checker validation only: each mutant is a one-site change of the current tree applied to a scratch copy and analysed in a separate process; it never changes the verdict of this check"}
+}
+
+func runMutantsCmd(pos []string, repo, verif string) int {
+	ms, err := loadMutants(verif)
+	if err != nil {
+		fmt.Println(err)
+		return 2
+	}
+	if len(pos) > 0 {
+		var sel []Mutant
+		for _, m := range ms {
+			for _, p := range pos {
+				if m.ID == p || hasProp(m.Props, p) || strings.HasPrefix(m.ID, p) {
+					sel = append(sel, m)
+					break
+				}
+			}
+		}
+		ms = sel
+	}
+	res := runMutants(ms, repo, 8)
+	bad := 0
+	for _, r := range res {
+		fmt.Printf("%-16s %-28s expected=%s\n", r.Status, r.ID, strings.Join(r.Expected, ","))
+		if r.Note != "" {
+			fmt.Printf("                 note: %s\n", r.Note)
+		}
+		if r.Status != "caught" {
+			for _, k := range r.Reported {
+				fmt.Printf("                 reported: %s\n", k)
+			}
+		}
+		if r.Status == "MISSED" || r.Status == "error" || r.Status == "does-not-compile" {
+			bad++
+		}
+	}
+	fmt.Printf("%d mutants, %d not caught/invalid\n", len(res), bad)
+	if bad > 0 {
+		return 1
+	}
+	return 0
+}
+
 func runSelftest(verif string) int { return 0 }
